@@ -146,13 +146,13 @@ pub fn all() -> Vec<Prop> {
         Prop {
             id: "C17",
             level: "exploration",
-            rule: "one evaluation = one generated task-tree program (main/background tasks, tasks spawning tasks, joins, nested scopes, cancel(), errors, panics, caller deadline) on the real scope::run! under a seeded schedule; oracle over the start/end/active event log vs. the scope's return; non-trivial = at least 2 tasks; distinct = distinct event-log fingerprint",
-            batches: |t| prim_batches("scopes", 4000, 300_000, t),
-            expected_probes: || vec!["nested_scope", "several_failures", "task_panicked"],
+            rule: "one evaluation = one generated task-tree program (main/background, async/blocking tasks, tasks spawning tasks, joins, nested run!/run_blocking! scopes, cancel(), errors, panics, scope timeouts, caller deadline) on the real scope::run! / run_blocking! under a seeded schedule (blocking tasks are OS threads holding a baton, preempted inside Once::send, set_err and run_blocking); oracle over the start/end/resolved/active event log vs. the scope's return; a worker taken down by a signal (use-after-return of the scope's frame) counts as a violation; non-trivial = at least 2 tasks; distinct = distinct event-log fingerprint",
+            batches: |t| prim_batches("scopes", 24000, 600_000, t),
+            expected_probes: || vec!["nested_scope", "several_failures", "task_panicked", "blocking_task", "blocking_top_scope"],
             components: prim_components,
             assumptions: || {
                 let mut a = prim_assumptions();
-                a.push("async tasks only: blocking tasks (spawn_blocking / run_blocking!) are not exercised in this revision");
+                a.push("blocking tasks interleave with everything else only at the preemption points of hook H1 (every blocking wait, Once::send, set_err, after the routine of a blocking task returned) - not at arbitrary instructions; half of the programs are purely async and are judged by the exact first-failure rule, programs with blocking tasks by the interval rule B' and the causality rule B'' (sim/src/prim/scopes.rs)");
                 a
             },
         },
